@@ -29,6 +29,9 @@ import (
 //   tables                          rune tables of the real unicode/strings packages
 //   parse  x<hdr>                   parseAcceptEncoding -> known tokens in order
 //   choose x<custom> x<std> <P>     chooseResponseEncoding with producible list P ("-" = empty)
+//   new    <plain|keyed>            replace the server by a fresh one built with NewHttpServer /
+//                                   NewHttpServerWithKey (advert read from a real OPTIONS /health and
+//                                   compared with what the server really produces)
 //   level  <n>                      SetCompressionLevel(n); advert read from a real OPTIONS /health
 //   resp   x<custom> x<std> x<ctype> <len> <kind> <chunks> <status> <via>
 //                                   a handler mounted on the real mux answers with that content
@@ -260,6 +263,9 @@ func c17Gen(g *Gen) {
 	nE2E := g.N(100, 2500)
 	for i := 0; i < nE2E; i++ {
 		var lines []string
+		if r.Chance(60) {
+			lines = append(lines, "new "+Pick(r, []string{"plain", "keyed", "keyed"}))
+		}
 		for k := 0; k < 8; k++ {
 			switch x := r.Intn(100); {
 			case x < 18:
@@ -288,6 +294,20 @@ func c17Gen(g *Gen) {
 				Pick(r, []string{"zstd", "gzip", "mix", "mixlv"}), Pick(r, []int{40000, 150000, 300000, 700000}), r.Intn(1<<30)))
 		}
 		g.Case(lines...)
+	}
+	// every constructor x level histories: none, the level it already has (once, twice), off, off
+	// and back on, refused levels
+	arrow := XS("application/vnd.apache.arrow.stream")
+	for _, ctor := range []string{"plain", "keyed"} {
+		for _, hist := range [][]int{{}, {1}, {1, 1}, {0}, {0, 0}, {0, 1}, {2, 2}, {9}, {9, 1}, {0, 9}, {-1, 1, 1}, {3, 0, 3}, {4, 4, 1}} {
+			lines := []string{"new " + ctor}
+			for _, lv := range hist {
+				lines = append(lines, fmt.Sprintf("level %d", lv))
+			}
+			lines = append(lines, fmt.Sprintf("resp %s x %s 64 text 1 200 rec", XS("zstd"), arrow),
+				fmt.Sprintf("resp x %s %s 64 text 1 200 net", XS("gzip"), arrow), fmt.Sprintf("rpc %s x echo:64", XS("gzip")))
+			g.Case(lines...)
+		}
 	}
 	// every level once, followed by plain offers of each codec on each header
 	for lv := -3; lv <= 13; lv++ {
@@ -481,13 +501,21 @@ func (e *c17Env) burstHandler() http.Handler {
 	})
 }
 
-func c17NewEnv() *c17Env {
+func c17NewEnv(ctor string) *c17Env {
 	e := &c17Env{}
 	s := vgirpc.NewServer()
 	vgirpc.Unary(s, "echo", func(_ context.Context, _ *vgirpc.CallContext, p c17EchoParams) (string, error) {
 		return strings.Repeat("a", int(p.N)), nil
 	})
-	e.h = vgirpc.NewHttpServer(s)
+	if ctor == "keyed" {
+		h, err := vgirpc.NewHttpServerWithKey(s, []byte("0123456789abcdef0123456789abcdef"))
+		if err != nil {
+			panic(err)
+		}
+		e.h = h
+	} else {
+		e.h = vgirpc.NewHttpServer(s)
+	}
 	e.level = 1
 	e.h.VerifC17Handle("PUT /__verif_c17_burst__", e.burstHandler())
 	e.h.VerifC17Handle("PUT /__verif_c17__", http.HandlerFunc(func(w http.ResponseWriter, _ *http.Request) {
@@ -719,6 +747,34 @@ func (e *c17Env) checkResponse(c *Case, line, custom, standard, ctype string, or
 	return fmt.Sprintf("enc=%s hdr=%s adv=%s", c17Dash(enc), which, XS(c17Advert(r.hdr)))
 }
 
+// checkAdvert reads the capability header from a real OPTIONS /health response and compares it
+// with the codecs the server really produces (probed, one codec at a time).
+func (e *c17Env) checkAdvert(c *Case, l string) string {
+	r, rerr := e.do("OPTIONS", "/health", nil, nil, "rec")
+	adv := "!error"
+	if rerr == nil {
+		adv = c17Advert(r.hdr)
+	}
+	// advertised == what the server actually produces
+	produced := e.probeProduced(c)
+	var advSet []string
+	for _, t := range strings.Split(adv, ",") {
+		if t = strings.TrimSpace(t); t != "" {
+			advSet = append(advSet, t)
+		}
+	}
+	a, b := append([]string{}, advSet...), append([]string{}, produced...)
+	sort.Strings(a)
+	sort.Strings(b)
+	if strings.Join(a, ",") != strings.Join(b, ",") {
+		c.Oracle("advert-not-producible-set", fmt.Sprintf("after %q: VGI-Supported-Encodings=%q but the server produces %v", l, adv, produced))
+	}
+	if hp := e.h.VerifC17Producible(); strings.Join(hp, ", ") != adv {
+		c.Oracle("advert-not-producible-list", fmt.Sprintf("after %q: VGI-Supported-Encodings=%q, producibleResponseEncodings()=%v", l, adv, hp))
+	}
+	return adv
+}
+
 func c17Dash(s string) string {
 	if s == "" {
 		return "-"
@@ -730,7 +786,7 @@ func c17Exec(c *Case) {
 	var env *c17Env
 	get := func() *c17Env {
 		if env == nil {
-			env = c17NewEnv()
+			env = c17NewEnv("plain")
 		}
 		return env
 	}
@@ -809,6 +865,14 @@ func c17Exec(c *Case) {
 				c.Stat("choose-" + enc)
 			}
 			c.Out(l, fmt.Sprintf("enc=%s custom=%v", c17Dash(enc), cu))
+		case f[0] == "new" && len(f) == 2 && (f[1] == "plain" || f[1] == "keyed"):
+			if env != nil {
+				env.close()
+			}
+			env = c17NewEnv(f[1])
+			adv := env.checkAdvert(c, l)
+			c.Stat("new-" + f[1] + "-adv=" + adv)
+			c.Out(l, "ok adv="+XS(adv))
 		case f[0] == "level" && len(f) == 2:
 			e := get()
 			n, _ := strconv.Atoi(f[1])
@@ -817,28 +881,7 @@ func c17Exec(c *Case) {
 				e.level = n
 			}
 			e.producedOK = false
-			r, rerr := e.do("OPTIONS", "/health", nil, nil, "rec")
-			adv := "!error"
-			if rerr == nil {
-				adv = c17Advert(r.hdr)
-			}
-			// advertised == what the server actually produces
-			produced := e.probeProduced(c)
-			var advSet []string
-			for _, t := range strings.Split(adv, ",") {
-				if t = strings.TrimSpace(t); t != "" {
-					advSet = append(advSet, t)
-				}
-			}
-			a, b := append([]string{}, advSet...), append([]string{}, produced...)
-			sort.Strings(a)
-			sort.Strings(b)
-			if strings.Join(a, ",") != strings.Join(b, ",") {
-				c.Oracle("advert-not-producible-set", fmt.Sprintf("after %q: VGI-Supported-Encodings=%q but the server produces %v", l, adv, produced))
-			}
-			if hp := e.h.VerifC17Producible(); strings.Join(hp, ", ") != adv {
-				c.Oracle("advert-not-producible-list", fmt.Sprintf("after %q: VGI-Supported-Encodings=%q, producibleResponseEncodings()=%v", l, adv, hp))
-			}
+			adv := e.checkAdvert(c, l)
 			st := "ok"
 			if err != nil {
 				st = "err"
